@@ -431,3 +431,42 @@ CHECKS = {
 
 NOT_YET = "check not built yet (work in progress; see DESIGN.md section 5)"
 NOT_APPLICABLE = {}
+
+# extensions made after the seeded-change rounds (appended to the texts above)
+ADDED = {
+    "C05": "A second synthetic table with the same identifier and node count "
+           "but other nodes, support and values makes the selected table "
+           "part of every case, so that calls with both tables interleave "
+           "in one process (independence of earlier calls).",
+    "C06": "ReadOrderSpec adds the reads in between: a file-based dataset "
+           "with image, background and mask and a basin that offers any "
+           "subset of the brightness features with its own values; every "
+           "sequence of reads must return what a freshly opened dataset "
+           "returns (basin data for basin-provided features, whatever a "
+           "multi-feature recipe computed before).",
+    "C07": "A second enumeration covers EVERY mapping array of length 1..4 "
+           "over four origin events as an explicitly mapped basin; access "
+           "patterns are also tried as the first access on a freshly opened "
+           "dataset; the reported length/shape and slice/boolean access to "
+           "contours are compared as well.",
+    "C08": "Inputs also come with 3001 events (HDF5 splits an unchunked "
+           "destination into several chunks with a remainder; single-task "
+           "pipelines) and with extras on two layouts: stored features "
+           "dclab treats as defective (float32 time, ShapeIn-2.0.6 aspect), "
+           "an unknown feature, a mapped file basin - such stored datasets "
+           "need not be carried over, the dataset-level features must agree.",
+    "C09": "Input files are named so that the alphabetical order of their "
+           "paths differs from the given order.",
+    "C11": "The bool-or-float class includes the number one (a float, not "
+           "the truth value it equals) in native/int/string/numpy form.",
+    "C12": "Half of the recorded datasets use a logarithmic x axis with "
+           "non-positive selected values that fall outside the density grid "
+           "(they count as events with density zero).",
+    "C13": "The image-shaped content of the written dataset is a dimension "
+           "of its own: every subset of image, image_bg, mask with the "
+           "corruptions that depend on it.",
+    "C14": "Identifier assignments include a suffix and an inner part of "
+           "the referrer's identifier (contained in it, not a prefix).",
+}
+for _pid, _txt in ADDED.items():
+    CHECKS[_pid]["text"] += " " + _txt
